@@ -92,8 +92,31 @@ class Session:
         h[RJSON + '.vAssume'] = self._assume
         h[RJSON + '.vAssert'] = self._assert
         h[RJSON + '.vReach'] = self._reach
+        h[RJSON + '.vNumValue'] = self._numvalue
+        h[RJSON + '.vNumOverflows'] = self._numovf
         for k in list(h):
             h[k.replace(RJSON, FP)] = h[k]
+
+    def use_float_contract(self):
+        """replace fp.ParseJSONFloatPrefix by the harness contract vFloatStub"""
+        from .executor import _TRANSFER
+
+        def redirect(ex, st, fr, ins, args):
+            ex.enter(st, fr, ('F', RJSON + '.vFloatStub', ()), args, ins)
+            return _TRANSFER
+        self.ex.hooks[FP + '.ParseJSONFloatPrefix'] = redirect
+
+    def _numvalue(self, ex, st, fr, ins, args):
+        cells = ex.slice_cells(st, args[0])
+        return ('D', ('NUM', tuple(cells)))
+
+    def _numovf(self, ex, st, fr, ins, args):
+        cells = tuple(ex.slice_cells(st, args[0]))
+        t = self.nondet_vars.get(('ovf', cells))
+        if t is None:
+            t = ex.store.newvar('ovf%d' % len(self.nondet_vars), 0, 'free')
+            self.nondet_vars[('ovf', cells)] = t
+        return t
 
     def _nondet(self, st, args, w):
         name = bytes(args[0][1]).decode() if args else 'nd'
